@@ -1433,6 +1433,8 @@ def _is_simple_property(fn) -> bool:
             continue
         if isinstance(st, ast.AnnAssign) and isinstance(st.target, ast.Name):
             continue
+        if isinstance(st, (ast.Assert, ast.Pass)) or (isinstance(st, ast.Expr) and isinstance(st.value, ast.Constant)):
+            continue
         return False
     return True
 
